@@ -30,12 +30,14 @@ class Skeletons:
         self.fm = stages.FnModel(facts, fn)
         self.ops = ops
         self.counters = counters
+        self.depth = 0
+        self.inlined = []
 
     def target(self, n):
         n = strip(n)
         if n.get("k") == "DeclRefExpr":
             o = self.fm.origin(n)
-            if o.startswith("it(") or o.startswith("each("):
+            if o.startswith("it(") or o.startswith("each(") or re.match(r"^param\d+$", o):
                 return o
             return "mutable:" + n.get("name", "?")
         return self.fm.origin(n)
@@ -92,9 +94,51 @@ class Skeletons:
             if not self.counters and act.lstrip("+-").startswith("mutable:"):
                 return []
             return [("act", act, s)]
+        inl = self.inline(e)
+        if inl is not None:
+            return inl
         if not self.ops:
             return []
         return [("act", "op[%s]" % tbf.callee_name(x), x) for x in walk(s) if x.get("k") in ("CallExpr", "CXXMemberCallExpr") and tbf.callee_name(x) in OPS]
+
+    def inline(self, e):
+        """a statement `helper(args)` where helper is a method of the same class: its skeleton with the parameters replaced by the
+        origins of the arguments (reference parameters carry the caller's cursors)"""
+        if e.get("k") not in ("CallExpr", "CXXMemberCallExpr") or self.depth > 2:
+            return None
+        nm = tbf.callee_name(e)
+        base = tbf.call_base(e)
+        if nm in OPS or nm is None or (base is not None and strip(base).get("k") not in ("CXXThisExpr",)):
+            return None
+        cls = self.fn.get("cls")
+        if not cls:
+            return None
+        args = tbf.call_args(e)
+        cands = [g for g in self.facts.methods_of(cls) if g["name"] == nm and tbf.body(g) is not None and not g.get("inst") and len(g["params"]) == len(args)]
+        if len(cands) != 1 or cands[0] is self.fn:
+            return None
+        sub = Skeletons(self.facts, cands[0], self.ops, self.counters)
+        sub.depth = self.depth + 1
+        t = sub.items(sub.fm.body, None)
+        if not t:
+            return None
+        amap = {"param%d" % i: self.fm.origin(a) for i, a in enumerate(args)}
+
+        def subst(x):
+            return re.sub(r"\bparam(\d+)\b", lambda m: amap.get(m.group(0), m.group(0)), x)
+
+        def rec(items):
+            out = []
+            for it in items:
+                if it[0] == "act":
+                    out.append(("act", subst(it[1]), e))
+                elif it[0] == "if":
+                    out.append(("if", subst(it[1]), rec(it[2]), rec(it[3]), e))
+                else:
+                    out.append(("loop", subst(it[1]), subst(it[2]), rec(it[3]), e))
+            return out
+        self.inlined.append(cands[0]["qname"])
+        return rec(t)
 
     def loop(self, s):
         declared = set()   # what an enclosing loop declares is loop-carried state for this loop
@@ -106,6 +150,11 @@ class Skeletons:
             body, cond = s["c"][0], s["c"][1]
             return ("loop", "do", "while(%s)" % self.fm.origin(cond), self.items(body, declared), s)
         init, cond, inc, body = s["c"]
+        ivars = [v for v in kids(init) if v.get("k") == "VarDecl"] if init is not None and init.get("k") == "DeclStmt" else []
+        if len(ivars) == 1 and kids(ivars[0]) and self.fm.origin(kids(ivars[0])[0]).startswith("it(") and cond is not None:
+            # for(auto it = X.begin(); it != X.end(); ++it) == the while form with the increment last
+            items = self.items(body, declared) + (self.items(inc, declared) if inc is not None else [])
+            return ("loop", "while(%s)" % self.fm.origin(cond), "", items, s)
         if init is not None:
             self.items(init, declared)
         try:
